@@ -52,6 +52,10 @@ def make_filters(shape):
         if outk == 'port':
             port = z3.Int(f'port{i}')
             c['outputs'] = rope('tcp://*:', Atom(f'portdigits{i}', 'digits', port))
+        elif outk == 'ports2':        # a comma list of two explicit outputs (the second may carry the higher port)
+            port = z3.Int(f'port{i}')
+            port_b = z3.Int(f'portb{i}')
+            c['outputs'] = rope('tcp://*:', Atom(f'portdigits{i}', 'digits', port), ', tcp://*:', Atom(f'portdigitsb{i}', 'digits', port_b))
         elif outk == 'hostport':
             port = z3.Int(f'port{i}')
             c['outputs'] = rope('tcp://', Atom(f'host{i}', 'host'), ':', Atom(f'portdigits{i}', 'digits', port))
@@ -63,7 +67,7 @@ def make_filters(shape):
             c['outputs'] = rope('file://', Atom(f'file{i}', 'name'))
         elif outk == 'empty':
             c['outputs'] = None
-        info.append(dict(name=name, id_atom=ida, port=port, outk=outk, srck=srck, role=role))
+        info.append(dict(name=name, id_atom=ida, port=port, port_b=port_b if outk == 'ports2' else None, outk=outk, srck=srck, role=role))
         filters.append([Obj('cls', FILTER_TYPE={'in': 'Input', 'mid': 'Mid', 'out': 'Output'}[role], _i=i), c, name])
     # sources referencing other filters by id need the ids: second pass
     for i, (role, idk, srck, outk) in enumerate(shape):
@@ -99,7 +103,7 @@ def shapes_for(tier):
             for src in [('ref', 0, s) for s in refs] + ['absent', 'addr', 'empty']:
                 out.append((('in', idk0, 'absent', outk), ('out', idk1, src, 'absent')))
     # three filters: chains and tees with explicit ports next to auto-allocated ones
-    for o0, o1 in itertools.product(('absent', 'port'), ('absent', 'port', 'ipc')):
+    for o0, o1 in itertools.product(('absent', 'port', 'ports2'), ('absent', 'port', 'ipc')):
         out.append((('in', 'auto', 'absent', o0), ('mid', 'auto', 'absent', o1), ('out', 'auto', 'absent', 'absent')))
         out.append((('in', 'given', 'absent', o0), ('mid', 'given', ('ref', 0, 'topic'), o1), ('out', 'auto', ('ref', 1, 'eph'), 'absent')))
         out.append((('in', 'auto', 'absent', o0), ('in', 'auto', 'absent', o1), ('out', 'auto', ('ref', 0, 'none'), 'absent')))
@@ -131,9 +135,10 @@ class ParseFiltersUnit(Unit):
         R.install(ex)
         filters, info = make_filters(fshape)
         for inf in info:
-            if inf['port'] is not None:
-                ex.assume(z3.And(inf['port'] >= 1024, inf['port'] <= 65000))
-        given = [inf['port'] for inf in info if inf['port'] is not None] + [z3.IntVal(5550) for inf in info if inf['outk'] == 'noport']
+            for pv in (inf['port'], inf.get('port_b')):
+                if pv is not None:
+                    ex.assume(z3.And(pv >= 1024, pv <= 65000))
+        given = [pv for inf in info for pv in (inf['port'], inf.get('port_b')) if pv is not None] + [z3.IntVal(5550) for inf in info if inf['outk'] == 'noport']
         for a_, b_ in itertools.combinations(given, 2):       # precondition: the outputs the user wrote do not collide with each other (each occupies its port and the next)
             ex.assume(z3.And(a_ != b_, a_ != b_ + 1, a_ + 1 != b_))
         # precondition: an ipc name the user wrote is not the id of (another) filter of the list (the automatic ipc output of a filter is ipc://<its id>)
@@ -161,8 +166,8 @@ class ParseFiltersUnit(Unit):
         env = Env(Env(), fn=closure(CLI, 'parse_filters'))
         env.v.update(args=[], ipc=ipc, filters=list(filters))
         pre = [dict(c.f['kv']) for _, c, _ in filters]
-        ex.replay_info = dict(filters=[{k: (text(v) if R.is_rope(v) or isinstance(v, str) else v) for k, v in p.items()} | {'class': n} for p, (_, _, n) in zip(pre, filters)], ipc=ipc)
-        ex.model_vars = {f'port{i}': inf['port'] for i, inf in enumerate(info) if inf['port'] is not None}
+        ex.replay_info = dict(fshape=[list(f) if not isinstance(f[2], tuple) else [f[0], f[1], list(f[2]), f[3]] for f in fshape], filters=[{k: (text(v) if R.is_rope(v) or isinstance(v, str) else v) for k, v in p.items()} | {'class': n} for p, (_, _, n) in zip(pre, filters)], ipc=ipc)
+        ex.model_vars = {**{f'port{i}': inf['port'] for i, inf in enumerate(info) if inf['port'] is not None}, **{f'portb{i}': inf['port_b'] for i, inf in enumerate(info) if inf.get('port_b') is not None}}
         try:
             ex.block(body, env)
             out = None
@@ -188,11 +193,11 @@ class ParseFiltersUnit(Unit):
         for a, b in itertools.combinations(ids, 2):
             O('C12.unique_ids: ids are pairwise different', z3.Not(zb(ex.eq(a, b))))
         # ---- outputs: explicit untouched, automatic ones well-formed
-        explicit_ports = [inf['port'] for inf in info if inf['port'] is not None] + [z3.IntVal(5550) for inf in info if inf['outk'] == 'noport']
+        explicit_ports = list(given)
         auto = []
         for i, (inf, k, p) in enumerate(zip(info, kv, pre)):
             o_now = k.get('outputs')
-            if inf['outk'] in ('port', 'hostport', 'noport', 'ipc', 'nonmq'):
+            if inf['outk'] in ('port', 'ports2', 'hostport', 'noport', 'ipc', 'nonmq'):
                 O('C12.pass_through: an output the user wrote is passed through unchanged', zb(ex.eq(o_now, p['outputs'])))
             elif o_now is not None:
                 ps = parts_of(o_now)
@@ -241,7 +246,61 @@ class ParseFiltersUnit(Unit):
         return ex
 
     def replay(self, failure):
-        return native_enumeration(limit=4000)
+        r = replay_shape(failure)
+        return r if r.get('confirmed') else native_enumeration(limit=4000)
+
+
+def replay_shape(failure):
+    """native replay: the failing shape as a concrete command line (ports from the solver model) through the REAL parse_filters, same postconditions"""
+    import logging
+    logging.disable(logging.CRITICAL)
+    from openfilter.cli.common import parse_filters
+    info, m = failure.get('extra') or {}, failure.get('model') or {}
+    fshape = info.get('fshape')
+    if not fshape:
+        return {'confirmed': False, 'detail': 'no shape recorded'}
+    names = {'in': 'VideoIn', 'mid': 'Util', 'out': 'VideoOut'}
+    ids = []
+    for i, (role, idk, srck, outk) in enumerate(fshape):
+        same = [k for k, f in enumerate(fshape) if names[f[0]] == names[role] and f[1] != 'given']
+        ids.append(f'myid{i}' if idk == 'given' else (names[role] if len(same) == 1 else f'{names[role]}{same.index(i) + 1}'))
+    args = []
+    suffix = {'none': '', 'eph': '?', 'topic': ';mytopic', 'opt': '!myopt', 'ephtopic': '?;mytopic'}
+    for i, (role, idk, srck, outk) in enumerate(fshape):
+        args.append(names[role])
+        if idk == 'given':
+            args += ['--id', ids[i]]
+        p, pb = m.get(f'port{i}', 6000 + 10 * i), m.get(f'portb{i}', 6004 + 10 * i)
+        outs = {'port': f'tcp://*:{p}', 'ports2': f'tcp://*:{p}, tcp://*:{pb}', 'hostport': f'tcp://myhost:{p}', 'noport': 'tcp://myhost', 'ipc': f'ipc://mypipe{i}',
+                'nonmq': 'file://out.mp4', 'empty': ''}.get(outk)
+        if outs is not None:
+            args += ['--outputs', outs] if outs else ['--outputs=']
+        if isinstance(srck, list):
+            args += ['--sources', ids[srck[1]] + suffix[srck[2]]]
+        elif srck == 'addr':
+            args += ['--sources', 'tcp://srchost:7000;srctopic']
+        elif srck == 'empty':
+            args += ['--sources=']
+        args.append('-')
+    argv = list(reversed(args[:-1]))
+    try:
+        res = parse_filters(argv, ipc=bool(info.get('ipc')))
+    except Exception as e:
+        return {'confirmed': 'no_failure' in failure['obligation'], 'inputs': args, 'observed': f'raised {type(e).__name__}: {e}'}
+    obs = []
+    pairs = []
+    for _, c, _ in res:
+        for o in (c.get('outputs') or '').split(',') if isinstance(c.get('outputs'), str) else (c.get('outputs') or []):
+            o = o.strip()
+            if o.startswith('tcp://') and o.rsplit(':', 1)[-1].isdigit():
+                pairs.append((c.get('id'), int(o.rsplit(':', 1)[-1])))
+    for (ia, a), (ib, b) in itertools.combinations(pairs, 2):
+        if abs(a - b) < 2:
+            obs.append(f'outputs of {ia} (port {a},{a + 1}) and {ib} (port {b},{b + 1}) overlap')
+    idl = [c.get('id') for _, c, _ in res]
+    if len(set(idl)) != len(idl):
+        obs.append(f'duplicate ids {idl}')
+    return {'confirmed': bool(obs), 'inputs': ' '.join(args[:-1]), 'observed': obs or [dict(c) for _, c, _ in res], 'required': 'no overlapping (port, port+1) pairs, unique ids'}
 
 
 def _port_of(ps):
@@ -278,6 +337,16 @@ def _strip_suffix(sp, want_suffix):
 def _addr_of(ex, out_rope, fid, inf, ipc):
     """the address a consumer must connect to for a producer whose (first) output is out_rope"""
     ps = parts_of(out_rope)
+    if any(isinstance(p_, str) and ',' in p_ for p_ in ps):       # a comma list: consumers connect to the FIRST output
+        first = []
+        for p_ in ps:
+            if isinstance(p_, str) and ',' in p_:
+                head = p_.split(',')[0].rstrip()
+                if head:
+                    first.append(head)
+                break
+            first.append(p_)
+        ps = first
     if ps and isinstance(ps[0], str) and ps[0].startswith('ipc://'):
         return ps
     if ps and isinstance(ps[0], str) and ps[0].startswith('tcp://*:'):
